@@ -592,3 +592,65 @@ V(id='c15-op-table-mismatch', prop='C15', file='mpmath/ctx_iv.py',
 V(id='c15-benign-rename', prop='C15', file='mpmath/libmp/libmpi.py',
   old="    re = mpi_sub(r1,r2,prec)\n    i1 = mpi_mul(a,d)", new="    real_part = mpi_sub(r1,r2,prec)\n    re = real_part\n    i1 = mpi_mul(a,d)",
   expect='silent')
+
+# ---------------------------------------------------------------- C01 -------
+V(id='c01-equal-exp-normalize1', prop='C01', file='mpmath/libmp/libmpf.py',
+  old="        bc = bitcount(man)\n        return normalize(ssign, man, texp, bc, prec or bc, rnd)\n    # Handle zeros",
+  new="        bc = bitcount(man)\n        return normalize1(ssign, man, texp, bc, prec or bc, rnd)\n    # Handle zeros",
+  expect='fire:E-R2:mpf_add')
+V(id='c01-mul-int-normalize1', prop='C01', file='mpmath/libmp/libmpf.py',
+  old="    bc += int(man>>bc)\n    return normalize(sign, man, exp, bc, prec, rnd)",
+  new="    bc += int(man>>bc)\n    return normalize1(sign, man, exp, bc, prec, rnd)",
+  expect='fire:E-R2:python_mpf_mul_int')
+V(id='c01-div-no-sticky-normalize1', prop='C01', file='mpmath/libmp/libmpf.py',
+  old="    return normalize(sign, quot, sexp-texp-extra, bitcount(quot), prec, rnd)\n\ndef mpf_rdiv_int",
+  new="    return normalize1(sign, quot, sexp-texp-extra, bitcount(quot), prec, rnd)\n\ndef mpf_rdiv_int",
+  expect='fire:E-R2:mpf_div')
+V(id='c01-mul-bc-estimate-off', prop='C01', file='mpmath/libmp/libmpf.py',
+  old="        bc = sbc + tbc - 1\n        bc += int(man>>bc)\n        if prec:\n            return normalize1(sign, man, sexp+texp, bc, prec, rnd)",
+  new="        bc = sbc + tbc - 1\n        if prec:\n            return normalize1(sign, man, sexp+texp, bc, prec, rnd)",
+  expect='fire:E-R3:python_mpf_mul')
+V(id='c01-add-stale-bitcount', prop='C01', file='mpmath/libmp/libmpf.py',
+  old="                        if tsign == ssign: sman += 1\n                        else:              sman -= 1\n                        return normalize1(ssign, sman, sexp-offset,\n                            bitcount(sman), prec, rnd)",
+  new="                        bcs = bitcount(sman)\n                        if tsign == ssign: sman += 1\n                        else:              sman -= 1\n                        return normalize1(ssign, sman, sexp-offset,\n                            bcs, prec, rnd)",
+  expect='fire:E-R3:mpf_add')
+V(id='c01-normalize-no-fixup', prop='C01', file='mpmath/libmp/libmpf.py',
+  old="    if man == 1:\n        bc = 1\n    return sign, man, exp, bc\n\ndef _normalize1",
+  new="    return sign, man, exp, bc\n\ndef _normalize1",
+  expect='fire:E-R4:_normalize')
+V(id='c01-normalize1-strip-no-exp', prop='C01', file='mpmath/libmp/libmpf.py',
+  old="        man >>= t\n        exp += t\n        bc -= t\n    # Bit count can be wrong if the input mantissa was 1 less than\n    # a power of 2 and got rounded up, thereby adding an extra bit.\n    # With trailing bits removed, all powers of two have mantissa 1,\n    # so this is easy to check for.\n    if man == 1:\n        bc = 1\n    return sign, man, exp, bc\n\ntry:",
+  new="        man >>= t\n        bc -= t\n    if man == 1:\n        bc = 1\n    return sign, man, exp, bc\n\ntry:",
+  expect='fire:E-R4:_normalize1')
+V(id='c01-neg-unguarded', prop='C01', file='mpmath/libmp/libmpf.py',
+  old="    sign, man, exp, bc = s\n    if not man:\n        if exp:\n            if s == finf: return fninf\n            if s == fninf: return finf\n        return s\n    if not prec:\n        return (1-sign, man, exp, bc)",
+  new="    sign, man, exp, bc = s\n    if not prec:\n        return (1-sign, man, exp, bc)\n    if not man:\n        if exp:\n            if s == finf: return fninf\n            if s == fninf: return finf\n        return s",
+  expect='fire:E-R1:mpf_neg')
+V(id='c01-shift-unguarded', prop='C01', file='mpmath/libmp/libmpf.py',
+  old="    sign, man, exp, bc = s\n    if not man:\n        return s\n    return sign, man, exp+n, bc",
+  new="    sign, man, exp, bc = s\n    return sign, man, exp+n, bc",
+  expect='fire:E-R1:mpf_shift')
+V(id='c01-special-collision', prop='C01', file='mpmath/libmp/libmpf.py',
+  old="fninf = (1, MPZ_ZERO, -789, -3)", new="fninf = (0, MPZ_ZERO, -456, -2)",
+  expect='fire:E-R5:fnan/finf/fninf')
+V(id='c01-ften-bc', prop='C01', file='mpmath/libmp/libmpf.py',
+  old="ften = (0, MPZ_FIVE, 1, 3)", new="ften = (0, MPZ_FIVE, 1, 4)",
+  expect='fire:E-R5:ften')
+V(id='c01-negative-zero-used', prop='C01', file='mpmath/libmp/libmpf.py',
+  old="            if sign: return fzero\n            else:    return fone", new="            if sign: return fnzero\n            else:    return fone",
+  expect='fire:E-R5:fnzero')
+V(id='c01-new-tuple-via-mpf-pos', prop='C01', file='mpmath/ctx_mp_python.py',
+  old="                v._mpf_ = normalize(sign, MPZ(man), exp, bc, prec, rounding)",
+  new="                v._mpf_ = mpf_pos((sign, MPZ(man), exp, bc), prec, rounding)",
+  expect='fire:E-R6:__new__')
+V(id='c01-unpickle-recount', prop='C01', file='mpmath/libmp/libmpf.py',
+  old="    return (sign, MPZ(man, 16), exp, bc)", new="    man = MPZ(man, 16)\n    return (sign, man, exp, bitcount(man))",
+  expect='fire:E-R6:from_pickable')
+V(id='c01-benign-bitcount-instead-of-idiom', prop='C01', file='mpmath/libmp/libmpf.py',
+  old="        bc = sbc + tbc - 1\n        bc += int(man>>bc)\n        if prec:\n            return normalize1(sign, man, sexp+texp, bc, prec, rnd)",
+  new="        bc = bitcount(man)\n        if prec:\n            return normalize1(sign, man, sexp+texp, bc, prec, rnd)",
+  expect='silent')
+V(id='c01-benign-normalize-instead-of-normalize1', prop='C01', file='mpmath/libmp/libmpf.py',
+  old="    return normalize1(sign, man, exp, bc, prec, rnd)\n    return s\n",
+  new="    return normalize(sign, man, exp, bc, prec, rnd)\n    return s\n",
+  expect='silent')
